@@ -33,8 +33,10 @@ TRUSTED = ["correspondence harness props/_proc_common.py + pv/ (fake /proc tree;
            "cext.proc_ioprio_set, cext.proc_cpu_affinity_set, resource.prlimit replaced by recorders that answer ESRCH "
            "exactly when the PID has no /proc entry)",
            "ghost incarnation numbers and the demanded answers in coq/Proc/Spec.v (written from the property text)"]
-ASSUMPTIONS = ["each psutil call is atomic with respect to kernel events (a PID recycled between psutil's identity check and "
-               "the system call inside one call is outside the model)",
+ASSUMPTIONS = ["the C01 delivery theorems are for calls with no kernel event between psutil's identity check and its system call; the "
+               "window is modelled (event ER): a PID recycled inside it receives the request (theorem C01_two_step_receiver_refuted, "
+               "reproduced on the implementation by the class race-toctou) -- the TOCTOU inherent in PIDs; the identity probe itself "
+               "and all getters are atomic",
                "two starts of one PID never carry the same start tick (psutil's documented assumption; hypothesis wf_hist)",
                "identity float starttime/CLK_TCK is an injective image of the tick count for ticks < 2^52; the model keeps ticks",
                "CPython tuple hashing does not collide on the sampled identities",
@@ -315,6 +317,23 @@ def gen_history(rng, n_events, flavour):
         if rng.random() < 0.6:
             emit(rng.choice([["isrun", o], ["set", o, gen_setter(rng)], ["ppid", o]]))
 
+    def orphan_motif():
+        # psutil.Popen whose child is already gone; later the PID gets an owner; compare, probe, signal
+        free = sh.free_pids()
+        if not free:
+            return
+        pid = rng.choice(free)
+        emit(["popen", pid])
+        o = len(sh.objs) - 1
+        feats.add("popen-gone-child")
+        if rng.random() < 0.4:
+            emit(rng.choice([["isrun", o], ["set", o, gen_setter(rng)], ["ppid", o], ["os_enter", o]]))
+        if rng.random() < 0.8 and spawn_some(pid):
+            emit(["new", pid] if rng.random() < 0.7 else ["popen", pid])
+            emit(["eq", o, len(sh.objs) - 1])
+            emit(["hasheq", len(sh.objs) - 1, o])
+        emit(rng.choice([["set", o, gen_setter(rng)], ["race", o, gen_setter(rng), []], ["isrun", o]]))
+
     def same_start_motif():
         free = sh.free_pids()
         if len(free) < 2:
@@ -359,8 +378,10 @@ def gen_history(rng, n_events, flavour):
                 emit(["new", pid])
         elif r < 0.40:
             emit(["boot"])
-        elif r < 0.43:
+        elif r < 0.425:
             emit(["iter"])
+        elif r < 0.435:
+            orphan_motif()
         elif r < 0.44:
             same_start_motif()
         elif objs_n == 0:
